@@ -1,6 +1,7 @@
 import XsVerif.Driver.Util
 import XsVerif.Driver.WcJson
 import XsVerif.Model.Attributes
+import XsVerif.Model.AttrFixed
 import XsVerif.Model.AttrTypes
 import XsVerif.Model.AttrDeriv
 open Lean XsVerif.Driver XsVerif.Wildcard XsVerif.Attributes XsVerif.AttrTypes XsVerif.AttrDeriv
@@ -10,17 +11,21 @@ open Lean XsVerif.Driver XsVerif.Wildcard XsVerif.Attributes XsVerif.AttrTypes X
 
   "decode" (default) — one built group, a batch of attribute sets and option pairs:
     {"decls":[D..], "any": null | {"wc":W,"pc":"strict|lax|skip"}, "globals":[D..], "loaded":[ns..],
-     "cases":[[[[ns,loc],value]..]..], "opts":[[useDefaults,fillMissing]..], "ctx":[[prefix,uri]..]}
+     "cases":[[[[ns,loc],value]..]..], "opts":[[useDefaults,fillMissing]..], "ctx":[[prefix,uri]..],
+     "byValue":b, "sctx":[[prefix,uri]..]}      byValue = the tree under test has the repair of C03-F3 (detected by
+                                                 the harness with the witness); sctx = schema.namespaces
     D = {"n":[ns,loc],"use":"optional|required|prohibited","fixed":null|str,"default":null|str,"ty":k,"same":b}
     W = wildcard as in C16 ({"ns":"any"|"other"|[..],"notNs":[..],"notQ":[[ns,loc]..],"nd":b,"nsib":b,"tns":str})
-    simple-type semantics = `AttrTypes.semCat ctx` (computed from the lexical forms, no tables)
+    simple-type semantics = `AttrTypes.semCatV byValue ctx sctx` (computed from the lexical forms, no tables);
+    errors = `Attributes.errorsX … (qStrict byValue)` (= `Attributes.errors` when byValue is false)
     answer {"res":[[R per opt] per case]},
       R = {"errors":[[kind,ns,loc]..] in collection order,
            "decoded":[[ns,loc,"t",ty,raw,V] | [ns,loc,"r",raw] | [ns,loc,"n"]] in result order},
       V = the decoded value of `raw` for catalogue type `ty` (`AttrTypes.decodedVal`)
   "types" — the catalogue semantics alone:
-    {"op":"types","ctx":[[prefix,uri]..],"items":[[ty,lex]..],"pairs":[[ty,a,b]..]}
-    answer {"valid":[b..],"dec":[V..],"eq":[b..]}
+    {"op":"types","ctx":[[prefix,uri]..],"byValue":b,"sctx":[..],"items":[[ty,lex]..],"pairs":[[ty,a,b]..]}
+    answer {"valid":[b..],"dec":[V..],"eq":[b..]}     eq = a declaration of type ty with fixed=b reports no
+                                                       fixed-value error for the value a (`declErrsX`)
   "build" — computing the attribute group of a (derived) complex type (Model/AttrDeriv.lean):
     {"op":"build","v11":b,"oldPc":b,"content":{"children":[{"attr":D}|{"group":G}..],"any":A,"inGroupDef":b},
      "deriv":"none|extension|restriction","base":null|G,"defaults":null|G,"ids":[ty..]}   G = {"decls":[D..],"any":A}
@@ -82,8 +87,12 @@ def valJson (ctx : NsCtx) (ty : Nat) (raw : String) : Json :=
   | some t => dvJson (decodedVal ctx t raw.toList)
   | none => Json.arr #["?"]
 
-def itemToJson (ctx : NsCtx) : Item → Json
-  | (n, .typed ty raw) => Json.arr #[n.ns, n.loc, "t", ty, raw, valJson ctx ty raw]
+def itemToJson (ctx : NsCtx) (bv inj : Bool) : Item → Json
+  | (n, .typed ty raw) =>
+    let v := match CatTy.ofIdx ty with
+      | some t => dvJson (if inj then injectedVal bv ctx t raw.toList else decodedVal ctx t raw.toList)
+      | none => Json.arr #["?"]
+    Json.arr #[n.ns, n.loc, "t", ty, raw, v]
   | (n, .raw s) => Json.arr #[n.ns, n.loc, "r", s]
   | (n, .nil) => Json.arr #[n.ns, n.loc, "n"]
 
@@ -152,12 +161,17 @@ def handleDecode (j : Json) : Except String Json := do
   let cases ← (← getArr j "cases").toList.mapM parseAttrs
   let opts ← (← getArr j "opts").toList.mapM parseOpt
   let ctx ← parseCtx (← j.getObjVal? "ctx")
-  let sem := semCat ctx
+  let sctx ← parseCtx (← j.getObjVal? "sctx")
+  let bv ← getBool j "byValue"
+  let sem := semCatV bv ctx sctx
   let env : Env := { globals, loaded }
   let G : Group := { decls, any }
+  -- `decoded` = items of the instance attributes ++ items of the injected ones ++ fillers
   let one (o : Opts) (attrs : List Attr) : Json :=
-    Json.mkObj [("errors", Json.arr ((errors sem env o G attrs).map errToJson).toArray),
-                ("decoded", Json.arr ((decoded env o G attrs).map (itemToJson ctx)).toArray)]
+    Json.mkObj [("errors", Json.arr ((errorsX sem (qStrict bv) env o G attrs).map errToJson).toArray),
+                ("decoded", Json.arr (((attrs.filterMap (stepItem env o G)).map (itemToJson ctx bv false) ++
+                    ((additional o G attrs).filterMap (stepItem env o G)).map (itemToJson ctx bv true) ++
+                    (filled o G attrs).map (itemToJson ctx bv false))).toArray)]
   let res := cases.map fun attrs => Json.arr (opts.map fun (ud, fm) =>
     one { useDefaults := ud, fillMissing := fm, legacy := false } attrs).toArray
   return Json.mkObj [("res", Json.arr res.toArray)]
@@ -165,7 +179,10 @@ def handleDecode (j : Json) : Except String Json := do
 /-- "types": validity, decoded value and the fixed-value test of the catalogue types -/
 def handleTypes (j : Json) : Except String Json := do
   let ctx ← parseCtx (← j.getObjVal? "ctx")
-  let sem := semCat ctx
+  let sctx ← parseCtx (← j.getObjVal? "sctx")
+  let bv ← getBool j "byValue"
+  let sem := semCatV bv ctx sctx
+  let nm : QN := ⟨"", "v"⟩
   let items ← (← getArr j "items").toList.mapM fun e => do
     let p ← e.getArr?
     if h : p.size = 2 then return (← p[0].getNat?, ← p[1].getStr?) else throw "item"
@@ -175,7 +192,9 @@ def handleTypes (j : Json) : Except String Json := do
   return Json.mkObj [
     ("valid", Json.arr (items.map fun (t, x) => Json.bool (sem.validT t x)).toArray),
     ("dec", Json.arr (items.map fun (t, x) => valJson ctx t x).toArray),
-    ("eq", Json.arr (pairs.map fun (t, a, b) => Json.bool (sem.valueEq t a b)).toArray)]
+    ("eq", Json.arr (pairs.map fun (t, a, b) => Json.bool
+      (!(declErrsX sem (qStrict bv) false { name := nm, fixed := some b, ty := t } nm a).contains
+          (Err.fixedMismatch nm))).toArray)]
 
 /-- "build": the attribute group of a (derived) complex type -/
 def handleBuild (j : Json) : Except String Json := do
